@@ -1146,6 +1146,7 @@ func pbServerCredsSerialize(in []*MsgCredServer) []*pbx.ServerCred {
 		out[i] = &pbx.ServerCred{
 			Method: cr.Method,
 			Value:  cr.Value,
+			Done:   cr.Done,
 		}
 	}
 
